@@ -174,7 +174,8 @@ def run(ctx):
                           1e-9 * scale, 'npv_calls',
                           ('NPV', lname, len_class(n)))
         # ---- PMT / PV / inversion ---------------------------------------------------
-        nper = rng.choice([1, 2, 5, 10, 12, 24, 60, 120, 360])
+        nper = rng.choice([1, 2, 5, 10, 12, 24, 60, 120, 360, 7.5, 0.5, 2.25,
+                           90.0, 13.75])
         pv = round(rng.uniform(-100000, 100000), 2) or 1000.0
         fv = rng.choice([0, 0, round(rng.uniform(-50000, 50000), 2)])
         if abs(nper * math.log10(1 + r)) < 250 and (r == 0 or
@@ -278,7 +279,10 @@ def run(ctx):
         # ---- IRR / XIRR -------------------------------------------------------------------
         if i % 4 == 0:
             k = rng.choice([2, 3, 5, 8, 12, 20, 30])
-            outlay = round(rng.uniform(100, 10000), 2)
+            # amounts from hundreds to hundreds of billions (the rate does
+            # not depend on the currency unit)
+            outlay = round(rng.uniform(100, 10000), 2) * rng.choice(
+                [1, 1, 1e3, 1e5, 1e7, 1e9])
             gain = rng.uniform(1.02, 3.0)
             w = [rng.random() + 0.05 for _ in range(k - 1)]
             tot = sum(w)
